@@ -216,6 +216,14 @@ def run(ctx, rep):
     else:
         rep.ob("delayed-group", "push-before-decrement", all(p not in acfg.reachable_from(acfg.succ[s][0][1]) for p in pushes for s in subs) and all(any(s in acfg.reachable_from(p) for s in subs) for p in pushes),
                "delay_processing.push happens before activations_remaining is decremented (otherwise the last activator can drain an empty queue and the delayed group is never processed)", ag.file, ag.blocks[pushes[0]]["t"]["l"])
+        # the counter counts *completed* activations: no file activation (and no own pending work) may still follow the decrement,
+        # otherwise the delayed synthetic-symbols group is released while other groups are still registering start/stop sections
+        acts = [bi for bi, t in aflow.calls() if (callee_key(t["f"]) or "").split("::")[-1] in ("activate",) or (callee_key(t["f"]) or "").endswith("FileLayoutState::activate")]
+        late = [a for a in acts for s_ in subs if a in acfg.reachable_from(acfg.succ[s_][0][1])]
+        rep.ob("delayed-group", "decrement-after-activation", bool(acts) and not late,
+               (f"{len(acts)} activation call(s), none reachable after the decrement of activations_remaining" if acts and not late else
+                "a file activation is still reachable after activations_remaining was decremented: the counter then counts groups that *started*, and the delayed group can run before "
+                "every group has registered its sections"), ag.file, ag.blocks[subs[0]]["t"]["l"])
         # pop loop on remaining == 0 edge
         eq_true = set()
         ef = acfg.edge_facts()
